@@ -28,8 +28,8 @@ from harness import designpower_util as U
 from harness.gnpy_util import TD
 
 BOUNDS = {
-    'quick': [dict(max_lib=2, wide=False, stride=13)],
-    'thorough': [dict(max_lib=3, wide=True, stride=43), dict(max_lib=4, wide=False, stride=401)],
+    'quick': [dict(max_lib=2, wide=False, stride=22)],
+    'thorough': [dict(max_lib=3, wide=True, stride=83), dict(max_lib=4, wide=False, stride=797)],
 }
 CLAUSES = ['ChosenPermitted', 'CoversBand', 'RamanOnlyIfAllowed', 'CapableIfPossible', 'QuietestCapable',
            'NeverRefusesWhenCapable', 'RestrictIsPermitted', 'CanAlwaysConclude', 'SketchRefinesProperty']
@@ -89,6 +89,9 @@ def concretise(js, variable_gain):
                                          max_fiber_lineic_loss_for_raman=db(c['ramanLimit']), max_length=150,
                                          length_units='km'), si=SI)
     g, pos = db(c['g']), c['pos']
+    fused_before = c['variant'] == 1        # a 0.5 dB Fused element directly in front of the judged amplifier
+    uvoa = 1.0 if c['variant'] == 2 else 0.0  # operator output VOA on the judged amplifier: offset +1 dB, so the loss in
+    g -= uvoa                                 # front of it is 1 dB below the required gain
     losses = [20.0, 20.0]
     coefs = [0.2, 0.2]                  # dB/km at the fibre's reference frequency (sets the length for a given loss)
     decl = [0.2, 0.2]                   # what the topology declares as loss_coef
@@ -100,9 +103,16 @@ def concretise(js, variable_gain):
             # on (the fibre's reference frequency, 193.41 THz, lies there): above the Raman limit on part of the band
             decl[pos - 1] = {'value': [db(c['lossCoef']), ref, ref], 'frequency': [193.0e12, 193.2e12, 193.6e12]}
     spans = [[dict(kind='fiber', length_km=(L - 0.5) / k, loss_coef=d)] for L, k, d in zip(losses, coefs, decl)]
+    head = None
+    if fused_before and pos in (INLINE, PREAMP):
+        L, k, d = losses[pos - 1], coefs[pos - 1], decl[pos - 1]
+        spans[pos - 1] = [dict(kind='fiber', length_km=(L - 1.0) / k, loss_coef=d), dict(kind='fused', loss=0.5)]
+    elif fused_before:
+        head = [dict(kind='fused', loss=0.5)]
+        g -= 0.5                              # ROADM target + Fused loss + gain = reference power
     if pos == BETWEEN:
         spans = []                          # ROADM A -> judged amplifier -> ROADM B
-    judged = {}
+    judged = {'operational': {'out_voa': uvoa}} if uvoa else {}
     own = [mname(a) for a in lib if a['own']]
     if c['useOwn'] and own:
         judged['variety_list'] = own
@@ -117,7 +127,7 @@ def concretise(js, variable_gain):
         for r in (ra, rb):
             r['params']['restrictions'] = {'booster_variety_list': rdm if c['rdmSide'] in (0, 1) else [],
                                            'preamp_variety_list': rdm if c['rdmSide'] in (0, 2) else []}
-    return eq, U.line_topology(spans, roadm_a=ra, roadm_b=rb, amps=amps, reverse=False)
+    return eq, U.line_topology(spans, roadm_a=ra, roadm_b=rb, amps=amps, reverse=False, head=head)
 
 
 def run_case(js, variable_gain, tag):
@@ -160,6 +170,7 @@ def describe(js):
     c = js['c']
     return dict(g=db(c['g']), p=db(c['p']), position=POS_NAMES[c['pos']], fibre=['0.2 dB/km', '0.3 dB/km', '0.30..0.24 dB/km'][c['fibre']],
                 useOwn=c['useOwn'], useRdm=c['useRdm'], roadm_lists=['booster+preamp', 'booster only', 'preamp only'][c['rdmSide']],
+                surroundings=['plain', 'Fused element directly before', 'operator out_voa 1 dB'][c['variant']],
                 library=[{k: (db(a[k]) if k in ('gmin', 'flat', 'pmax', 'nf0', 'nf') else a[k])
                           for k in ('name', 'id', 'gmin', 'flat', 'pmax', 'nf0', 'nf', 'raman', 'fmin', 'own', 'rdm', 'alw')}
                          for a in sorted(js['lib'], key=lambda m: m['id'])],
@@ -385,7 +396,8 @@ def run(chk):
     exercised = dict(own_list=0, roadm_list=0, allowed=0, raman_capable=0, raman_blocked=0, narrow_band=0,
                      several_capable=0, none_capable=0, refusal_admitted=0, below_min_gain_allowance=0,
                      band_edge_model_is_the_choice=0, quieter_raman_lacks_power=0, mixed_loss_fibre_blocks_quieter_raman=0,
-                     between_roadms_preamp_list_only=0)
+                     between_roadms_preamp_list_only=0, fused_before_blocks_quieter_raman=0,
+                     fused_after_roadm_lifts_booster_list=0, operator_voa_needs_more_power=0, nf_within_a_tenth_of_a_db=0)
     mism = []
     for b in BOUNDS[chk.tier]:
         r = tlc.run('MC_AmpSelection', cfg_text=mc_cfg(b), timeout=2400, tag='c10-mc')
@@ -393,7 +405,7 @@ def run(chk):
         for js in r.emitted:
             name_models(js)
             c = js['c']
-            key = json.dumps([sorted(a['id'] for a in js['lib']), c['g'], c['pos'], c['fibre'], c['useOwn'], c['useRdm'], c['rdmSide']])
+            key = json.dumps([sorted(a['id'] for a in js['lib']), c['g'], c['pos'], c['fibre'], c['useOwn'], c['useRdm'], c['rdmSide'], c['variant']])
             n += 1
             tag = 'B2#' + format(zlib.crc32(key.encode()), '08x')
             got, trace, err = run_case(js, False, tag)
@@ -411,7 +423,9 @@ def run(chk):
                 trace['open'] = 1 if js['open'] else 0
                 b2_traces.append(trace)
             # the same line with the library turned into variable-gain models: judged by the trace specification only
-            got2, trace2, err2 = run_case(js, True, tag + 'vg') if js['cap'] else ('skipped', None, None)
+            # (always when the NF ranking decides between several capable models, else for every third capable case)
+            twin = len(js['cap']) > 1 or (js['cap'] and n % 3 == 0)
+            got2, trace2, err2 = run_case(js, True, tag + 'vg') if twin else ('skipped', None, None)
             if trace2 is not None:
                 trace2['open'] = 0
                 b2_traces.append(trace2)
@@ -433,6 +447,14 @@ def run(chk):
             best = min((a['nf'] for a in js['lib'] if a['id'] in js['adm']), default=None)
             exercised['between_roadms_preamp_list_only'] += bool(js['cap']) and c['pos'] == BETWEEN and c['hasRdm'] and \
                 c['rdmSide'] == 2 and not c['hasOwn']
+            adm_nf = sorted(a['nf'] for a in js['lib'] if a['id'] in js['cap'])
+            exercised['nf_within_a_tenth_of_a_db'] += len(adm_nf) > 1 and 0 < adm_nf[1] - adm_nf[0] < 100000
+            exercised['operator_voa_needs_more_power'] += c['variant'] == 2 and bool(js['cap']) and any(
+                a['pmax'] < c['p'] <= a['pmax'] + 1000000 and a['nf'] < best for a in js['lib'])
+            exercised['fused_before_blocks_quieter_raman'] += c['variant'] == 1 and bool(js['cap']) and c['pos'] in (INLINE, PREAMP) \
+                and any(a['raman'] and a['nf'] < best and a['pmax'] > c['p'] for a in js['lib'])
+            exercised['fused_after_roadm_lifts_booster_list'] += c['variant'] == 1 and c['pos'] in (BOOSTER, BETWEEN) and \
+                c['useRdm'] and not c['hasRdm'] and not c['hasOwn'] and any(a['rdm'] for a in js['lib'])
             exercised['band_edge_model_is_the_choice'] += bool(js['cap']) and any(
                 a['fmax'] == c['bfmax'] and a['id'] in js['adm'] for a in js['lib'])
             exercised['quieter_raman_lacks_power'] += bool(js['cap']) and ramanok and any(
@@ -535,6 +557,22 @@ def _mut_preamp_list_first():    # preamp list of the next ROADM applied to ever
                   'if False:')
 
 
-MUTANTS = {'rank_max_nf': _mut_rank_max_nf, 'rank_power': _mut_rank_power, 'precedence': _mut_precedence,
+def _mut_nf_rank_coarse():       # NF compared at 0.1 dB resolution, ties broken by power margin
+    _patch_source('select_edfa', "selected_edfa = min(acceptable_power_list, key=attrgetter('nf'))",
+                  "selected_edfa = min(acceptable_power_list, key=lambda x: (round(x.nf, 1), -x.power))")
+
+
+def _mut_select_power_after_voa():   # the selection is asked for the power behind the output VOA
+    _patch_source('set_one_amplifier', 'select_edfa(raman_allowed, gain_target, power_target, edfa_eqpt,',
+                  'select_edfa(raman_allowed, gain_target, power_target - voa, edfa_eqpt,')
+
+
+def _mut_fused_keeps_prev():     # a Fused element in the OMS walk does not become the "previous node"
+    _patch_source('set_egress_amplifier', "            prev_node = node\n            node = next_node",
+                  "            if not isinstance(node, elements.Fused):\n                prev_node = node\n            node = next_node")
+
+
+MUTANTS = {'rank_max_nf': _mut_rank_max_nf, 'nf_rank_coarse': _mut_nf_rank_coarse,
+           'select_power_after_voa': _mut_select_power_after_voa, 'fused_keeps_prev': _mut_fused_keeps_prev, 'precedence': _mut_precedence,
            'band_filter_dropped': _mut_band_filter_dropped, 'raman_always': _mut_raman_always,
            'power_per_channel': _mut_power_per_channel, 'own_list_ignored': _mut_preamp_list_first}
